@@ -218,6 +218,11 @@ impl<'a> Model<'a> {
         }
 
         let n = trials as u64;
+        if n == 0 {
+            // With no trials the only possible number of successes is zero
+            // (the quantile search of the distribution needs at least one trial)
+            return CalcResult::Number(0.0);
+        }
 
         let dist = match Binomial::new(p, n) {
             Ok(d) => d,
